@@ -1,6 +1,6 @@
 (* Props/C15.v — property C15: the SML text of any item parses back to the same item; the parser terminates. *)
 From SG Require Import Base.Prelude Base.Kinds Model.Secs2 Model.Item Model.Sfdl Model.Sml.
-From SG Require Import Proofs.SmlProofs.
+From SG Require Import Proofs.SmlProofs Proofs.SmlLex Proofs.SmlRead.
 Open Scope N_scope.
 
 (* On ANY token list the reader stops within a recursion depth bounded by the number of tokens (the fuel
@@ -26,8 +26,42 @@ Theorem C15_integers_roundtrip : forall z, parse_int10 (print_Z z) = Ok z.
 Proof. exact int_print_parse. Qed.
 Print Assumptions C15_integers_roundtrip.
 
-(* instances of the full round trip, incl. quotes, control characters, JIS-8 and nesting (the general
-   statement is decided by the correspondence check on generated items) *)
+(* THE ROUND TRIP, for every item of the modelled domain - any nesting depth, any list length, empty items, text with
+   quotes / control characters / blanks / brackets / non-ASCII (A: Latin-1, J: JIS-8), every integer class at any value
+   in range, binary and boolean arrays of any length: the text to_sml prints (at any indentation) is tokenized and read
+   back by from_sml as exactly that item.  sml_dom (Proofs/SmlLex.v) is the domain:
+     lists of items of the domain | bytes < 256 | booleans | text that the item's codec can encode |
+     integers within the bounds of their class | empty F4/F8 items.
+   Non-empty F4/F8 items are outside (float formatting / float() are not modelled): those are checked by correspondence only. *)
+Theorem C15_roundtrip : forall v, sml_dom v = true -> forall ind, exists t, to_sml ind v = Ok t /\ from_sml t = Ok v.
+Proof. exact sml_roundtrip. Qed.
+Print Assumptions C15_roundtrip.
+
+(* the two halves it is made of: the tokenizer turns the printed text into the printed tokens (whatever follows), and
+   the reader turns those tokens back into the item (whatever follows, for any sufficient recursion budget) *)
+Theorem C15_tokens_of_printed_text : forall v, sml_dom v = true -> forall ind, exists t, to_sml ind v = Ok t /\
+  forall acc rest, sml_lex (t ++ rest) [] 0 acc = sml_lex rest [] 0 (rev (ptoks v) ++ acc).
+Proof. exact lex_item. Qed.
+Print Assumptions C15_tokens_of_printed_text.
+Theorem C15_reader_inverts_printer : forall v, sml_dom v = true -> forall fuel rest,
+  (length (ptoks v ++ rest) < fuel)%nat -> read_item fuel (ptoks v ++ rest) = Ok (v, rest).
+Proof. exact read_ptoks. Qed.
+Print Assumptions C15_reader_inverts_printer.
+
+(* non-vacuity: the sample below (quotes, NUL, 0xff, JIS-8 katakana and yen, extreme integers, empty items, nesting) is in the domain *)
+Example C15_domain_inhabited : sml_dom (VArr [VText false [115; 97; 121; 32; 34; 104; 105; 34; 0; 255; 62; 60; 10]; VText true [65; 0xff71; 0xa5];
+        VNum I8 [(-9223372036854775808)%Z; 0%Z]; VBin [0; 255]; VBool [true; false]; VArr []; VNum U1 []; VFlt F8 []; VArr [VArr [VArr []]]]) = true.
+Proof. vm_compute. reflexivity. Qed.
+
+(* REJECTION: on ANY token list, an item is only returned if the tokens start with '<' and a known type name, and the
+   tokens taken for the item end with the closing '>' (a text whose brackets are not closed yields no item) *)
+Theorem C15_accepts_only_closed_known : forall fuel ts v rest, read_item fuel ts = Ok (v, rest) ->
+  (exists ty r u c, ts = [c_lt] :: ty :: r /\ upper ty = Ok u /\ class_of_name u = Some c) /\
+  (exists pre, ts = (pre ++ [c_gt] :: rest)%list).
+Proof. exact read_item_accepts_only. Qed.
+Print Assumptions C15_accepts_only_closed_known.
+
+(* instances of the full round trip, incl. quotes, control characters, JIS-8 and nesting (evaluated instances of C15_roundtrip) *)
 Definition sample_item : val :=
   VArr [VText false [115; 97; 121; 32; 34; 104; 105; 34; 0; 255]; VText true [65; 0xff71; 0xa5];
         VNum I8 [(-9223372036854775808)%Z; 0%Z]; VBin [0; 255]; VBool [true; false]; VArr []; VNum U1 []].
